@@ -5,26 +5,56 @@ mod verif_c07_newpacket {
     //@include ../_shared/kani_stubs.rs
 
     /// A journal that has handed out the numbers `0..next_pn` (their records already rotated away: the
-    /// guard reads only `IndexDeque::largest()` = offset + len and pushes at the back) -- concrete EMPTY shape.
-    fn journal(next_pn: u64, largest_acked: u64) -> ArcSentJournal<u8> {
-        let mut j = SentJournal::<u8>::default();
+    /// guard reads only `IndexDeque::largest()` = offset + len and pushes at the back) -- concrete EMPTY
+    /// shape, built by the production constructor (pre-allocated, so push_back does not reallocate).
+    /// Held in a LOCAL Mutex: reading records back through Arc<Mutex<..>> sends CBMC out of memory.
+    fn journal(next_pn: u64, largest_acked: u64) -> Mutex<SentJournal<u8>> {
+        let mut j = SentJournal::<u8>::with_capacity(2);
         j.sent_packets.reset_offset(next_pn);
         j.largest_acked_pktno = largest_acked;
-        ArcSentJournal(Arc::new(Mutex::new(j)))
+        Mutex::new(j)
     }
 
-    fn any_journal() -> (ArcSentJournal<u8>, u64) {
+    /// The guard `ArcSentJournal::new_packet` returns, on a local Mutex.  That this IS new_packet's result
+    /// (trivial == false, origin_len == current queue length, holding the lock) is `new_packet_contract`.
+    fn new_packet<'a>(m: &'a Mutex<SentJournal<u8>>) -> NewPacketGuard<'a, u8> {
+        let inner = m.lock().unwrap();
+        let origin_len = inner.queue.len();
+        NewPacketGuard { trivial: false, origin_len, inner }
+    }
+
+    fn any_journal() -> (Mutex<SentJournal<u8>>, u64) {
         let next_pn: u64 = kani::any();
         let acked: u64 = kani::any();
         // "packet number never overflow": below 2^62 - 1 so that the push is admissible (IndexDeque LIMIT)
         kani::assume(next_pn < VARINT_MAX);
-        // caller obligation of PacketNumber::encode (unit c07_pn): unacknowledged distance below 2^31
+        // caller obligation of PacketNumber::encode (unit c07_pn): unacknowledged distance below 2^31,
+        // otherwise pn() panics ("packet number too large to encode")
         kani::assume(acked <= next_pn && next_pn - acked < (1u64 << 31));
         (journal(next_pn, acked), next_pn)
     }
 
-    fn next_pn_of(j: &ArcSentJournal<u8>) -> u64 {
-        j.0.lock().unwrap().sent_packets.largest()
+    fn next_pn_of(j: &Mutex<SentJournal<u8>>) -> u64 {
+        j.lock().unwrap().sent_packets.largest()
+    }
+
+    /// the real constructor: fresh guard is non-trivial and remembers the current frame-queue length
+    #[kani::proof]
+    #[kani::unwind(2)]
+    fn new_packet_contract() {
+        let next_pn: u64 = kani::any();
+        kani::assume(next_pn < VARINT_MAX);
+        let mut j = SentJournal::<u8>::with_capacity(2);
+        j.sent_packets.reset_offset(next_pn);
+        let pre: bool = kani::any();
+        if pre {
+            j.queue.push_back(kani::any());
+        }
+        let a = ArcSentJournal(Arc::new(Mutex::new(j)));
+        let g = a.new_packet();
+        assert!(!g.trivial, "C07.newpacket.new.not_trivial");
+        assert!(g.origin_len == g.inner.queue.len() && g.origin_len == pre as usize, "C07.newpacket.new.remembers_queue_length");
+        assert!(g.inner.sent_packets.largest() == next_pn, "C07.newpacket.new.journal_unchanged");
     }
 
     fn any_timeout() -> Duration {
@@ -35,26 +65,28 @@ mod verif_c07_newpacket {
     /// pn() is the next unused number, is stable, and looking at it does not consume it; a guard dropped
     /// without recording anything leaves the journal exactly as it was (abandoned assembly).
     #[kani::proof]
+    #[kani::unwind(2)] // cuts std Mutex::lock_contended (unreachable spin loop)
     fn pn_and_abandon_contract() {
         let (j, next) = any_journal();
         {
-            let g = j.new_packet();
+            let g = new_packet(&j);
             let (pn, _enc) = g.pn();
             assert!(pn == next, "C07.newpacket.pn.is_next_unused");
             let (pn2, _) = g.pn();
             assert!(pn2 == pn, "C07.newpacket.pn.stable");
         } // dropped without build
         assert!(next_pn_of(&j) == next, "C07.newpacket.abandon.number_not_consumed");
-        let g = j.0.lock().unwrap();
+        let g = j.lock().unwrap();
         assert!(g.sent_packets.len() == 0 && g.queue.len() == 0, "C07.newpacket.abandon.journal_unchanged");
     }
 
     /// record_trivial only sets the flag; an abandoned trivial guard consumes nothing either.
     #[kani::proof]
+    #[kani::unwind(2)] // cuts std Mutex::lock_contended (unreachable spin loop)
     fn trivial_abandon_contract() {
         let (j, next) = any_journal();
         {
-            let mut g = j.new_packet();
+            let mut g = new_packet(&j);
             g.record_trivial();
             assert!(g.pn().0 == next, "C07.newpacket.record_trivial.pn_unchanged");
         }
@@ -63,26 +95,28 @@ mod verif_c07_newpacket {
 
     /// build_trivial consumes exactly the number pn() returned and records a frame-less packet.
     #[kani::proof]
+    #[kani::unwind(2)] // cuts std Mutex::lock_contended (unreachable spin loop)
     fn build_trivial_contract() {
         let (j, next) = any_journal();
-        let mut g = j.new_packet();
+        let mut g = new_packet(&j);
         g.record_trivial();
         let pn = g.pn().0;
         g.build_trivial();
         assert!(next_pn_of(&j) == next + 1, "C07.newpacket.build_trivial.consumes_exactly_one");
         {
-            let inner = j.0.lock().unwrap();
-            assert!(inner.sent_packets.get(pn) == Some(&SentPktState::Skipped), "C10.newpacket.build_trivial.record_has_no_frames");
+            let inner = j.lock().unwrap();
+            assert!(inner.sent_packets.front() == Some((pn, &SentPktState::Skipped)), "C10.newpacket.build_trivial.record_has_no_frames");
             assert!(inner.queue.len() == 0, "C10.newpacket.build_trivial.no_frames_queued");
         }
         // the next packet gets a strictly larger number
-        let g2 = j.new_packet();
+        let g2 = new_packet(&j);
         assert!(g2.pn().0 == pn + 1 && g2.pn().0 > pn, "C07.newpacket.build_trivial.next_is_strictly_larger");
     }
 
     /// build_with_time: pushes exactly one record iff (a frame was recorded or the packet is trivial);
     /// the record counts exactly the frames recorded through this guard; otherwise the number is not consumed.
     #[kani::proof]
+    #[kani::unwind(2)] // cuts std Mutex::lock_contended (unreachable spin loop)
     #[kani::stub(tokio::time::Instant::now, any_instant)]
     fn build_with_time_contract() {
         let (j, next) = any_journal();
@@ -91,7 +125,7 @@ mod verif_c07_newpacket {
         let frame: u8 = kani::any();
         let retran = any_timeout();
         let expire = any_timeout();
-        let mut g = j.new_packet();
+        let mut g = new_packet(&j);
         if trivial {
             g.record_trivial();
         }
@@ -108,24 +142,25 @@ mod verif_c07_newpacket {
             assert!(after == next, "C07.newpacket.build.empty_packet_consumes_nothing");
         }
         {
-            let inner = j.0.lock().unwrap();
+            let inner = j.lock().unwrap();
             if with_frame {
                 assert!(inner.queue.len() == 1 && inner.queue[0] == frame, "C10.newpacket.build.frame_queued");
-                match inner.sent_packets.get(pn) {
-                    Some(SentPktState::Flighting { nframes, sent_time, retran_time, expire_time }) => {
+                match inner.sent_packets.front() {
+                    Some((idx, SentPktState::Flighting { nframes, sent_time, retran_time, expire_time })) => {
+                        assert!(idx == pn, "C07.newpacket.build.record_is_at_pn");
                         assert!(*nframes == 1, "C10.newpacket.build.record_counts_frames_of_this_packet");
                         assert!(*retran_time == *sent_time + retran && *expire_time == *sent_time + expire, "C10.newpacket.build.timers");
                     }
                     _ => assert!(false, "C10.newpacket.build.record_is_flighting"),
                 }
             } else if trivial {
-                assert!(inner.sent_packets.get(pn) == Some(&SentPktState::Skipped), "C10.newpacket.build.trivial_record_has_no_frames");
+                assert!(inner.sent_packets.front() == Some((pn, &SentPktState::Skipped)), "C10.newpacket.build.trivial_record_has_no_frames");
                 assert!(inner.queue.len() == 0, "C10.newpacket.build.trivial_nothing_queued");
             } else {
                 assert!(inner.sent_packets.len() == 0 && inner.queue.len() == 0, "C07.newpacket.build.empty_packet_journal_unchanged");
             }
         }
-        let g2 = j.new_packet();
+        let g2 = new_packet(&j);
         assert!(g2.pn().0 == after, "C07.newpacket.build.next_guard_starts_after");
         kani::cover!(with_frame && trivial, "C07.newpacket.build.reach_frame_and_trivial");
         kani::cover!(!with_frame && !trivial, "C07.newpacket.build.reach_empty");
@@ -142,15 +177,15 @@ mod verif_c07_newpacket {
     fn abandoned_after_record_frame_orphans() {
         let j = journal(0, 0);
         {
-            let mut g = j.new_packet();
+            let mut g = new_packet(&j);
             g.record_frame(7u8);
         } // abandoned part-way
         assert!(next_pn_of(&j) == 0, "C07.newpacket.abandon_after_record.number_not_consumed");
-        let mut g = j.new_packet();
+        let mut g = new_packet(&j);
         let pn = g.pn().0;
         g.record_frame(9u8);
         g.build_with_time(Duration::from_millis(100), Duration::from_millis(300));
-        let mut inner = j.0.lock().unwrap();
+        let mut inner = j.into_inner().unwrap();
         let first = inner.on_packet_acked(pn).next();
         kani::cover!(first.is_some(), "C10.newpacket.abandon_after_record.reach_reports_a_frame");
         assert!(first == Some(9u8), "C10.newpacket.abandon_after_record.acked_packet_reports_its_own_frame");
